@@ -4,7 +4,13 @@ import (
 	"encoding/binary"
 	"encoding/json"
 	"fmt"
+	"sort"
 	"strings"
+
+	gogotypes "github.com/gogo/protobuf/types"
+	tmbytes "github.com/tendermint/tendermint/libs/bytes"
+
+	"github.com/irismod/service/types"
 )
 
 // C18 (history part) — every issued request can be found again from its ID: the ID splits to
@@ -38,9 +44,12 @@ func (o *c18) Step(r *StepRec) []Violation {
 		return nil
 	}
 	post := r.Post
+	if !r.InTx {
+		o.liveScans(r)
+	}
 	ids := NewReqs(r)
 	if len(ids) == 0 {
-		return nil
+		return o.take()
 	}
 	// issue events of this step, by context
 	byCtx := map[string][][]evReq{}
@@ -128,3 +137,114 @@ func (o *c18) Step(r *StepRec) []Violation {
 func (o *c18) NonTrivial() bool { return o.cls["request_found_at_index>0"] > 0 || o.cls["two_contexts_issue_in_one_block"] > 0 }
 
 var _ = fmt.Sprint
+
+// liveScans: "every prefix scan the module performs returns exactly the records of its subject", on the
+// states the histories reach (also after a zero-height restart, at heights on both sides of a byte
+// boundary ...): the module's own scan functions are asked and their answers compared with the raw
+// snapshot. Runs on the committed state only (not inside a transaction).
+func (o *c18) liveScans(r *StepRec) {
+	w, post := o.w, r.Post
+	ctx, k := w.ctx, w.k
+	set := func(xs []string) string {
+		ys := append([]string{}, xs...)
+		sort.Strings(ys)
+		return strings.Join(ys, ",")
+	}
+	// 1. providers of an owner
+	owners := map[string][]string{}
+	for _, bk := range sortedKeys(post.Binds) {
+		b := post.Binds[bk]
+		ow, pv := hx(b.Owner), hx(b.Provider)
+		dup := false
+		for _, x := range owners[ow] {
+			dup = dup || x == pv
+		}
+		if !dup {
+			owners[ow] = append(owners[ow], pv)
+		}
+	}
+	for _, ow := range append(append([]string{}, Signers...), sortedKeys(owners)...) {
+		if len(ow) != 40 {
+			continue // the index key carries a 20-byte owner (owners are signers)
+		}
+		var got []string
+		it := k.OwnerProvidersIterator(ctx, addr(ow))
+		for ; it.Valid(); it.Next() {
+			got = append(got, hx(it.Key()[1+20:]))
+		}
+		it.Close()
+		if set(got) != set(owners[ow]) {
+			o.fail("c18:scan:owner_providers", "providers of owner %s: the module's scan lists %v, the bindings record %v (after %s)", short(ow), shortAll(got), shortAll(owners[ow]), r.Action.Kind)
+		}
+		if len(owners[ow]) > 0 {
+			o.hit("live_scan_owner_providers")
+		}
+	}
+	// 2. the two height queues, at every height that has an entry and at the current height
+	heights := map[int64]bool{r.Post.Height: true}
+	wantExp, wantNew := map[int64][]string{}, map[int64][]string{}
+	for _, q := range post.ExpQ {
+		heights[q.Height] = true
+		wantExp[q.Height] = append(wantExp[q.Height], q.Ctx)
+	}
+	for _, q := range post.NewQ {
+		heights[q.Height] = true
+		wantNew[q.Height] = append(wantNew[q.Height], q.Ctx)
+	}
+	for h := range heights {
+		var gotE, gotN []string
+		k.IterateExpiredRequestBatch(ctx, h, func(id tmbytes.HexBytes, _ types.RequestContext) { gotE = append(gotE, hx(id)) })
+		k.IterateNewRequestBatch(ctx, h, func(id tmbytes.HexBytes, _ types.RequestContext) { gotN = append(gotN, hx(id)) })
+		if set(gotE) != set(wantExp[h]) {
+			o.fail("c18:scan:expiry_queue", "batches expiring at height %d: the module's scan lists %v, the store holds %v", h, shortAll(gotE), shortAll(wantExp[h]))
+		}
+		if set(gotN) != set(wantNew[h]) {
+			o.fail("c18:scan:new_batch_queue", "batches due at height %d: the module's scan lists %v, the store holds %v", h, shortAll(gotN), shortAll(wantNew[h]))
+		}
+		if len(wantExp[h])+len(wantNew[h]) > 0 && h%256 == 255 {
+			o.hit("live_scan_queue_at_height_ending_in_ff")
+		}
+	}
+	// 3. pending requests of a binding, and of a context's batch
+	for _, bk := range sortedKeys(post.Binds) {
+		b := post.Binds[bk]
+		var got, want []string
+		it := k.ActiveRequestsIterator(ctx, b.ServiceName, b.Provider)
+		for ; it.Valid(); it.Next() {
+			var v gogotypes.BytesValue
+			if w.app.AppCodec().UnmarshalBinaryBare(it.Value(), &v) == nil {
+				got = append(got, hx(v.Value))
+			}
+		}
+		it.Close()
+		for _, e := range post.ActiveB {
+			if e.Service == b.ServiceName && e.Provider == b.Provider.String() {
+				want = append(want, e.ReqID)
+			}
+		}
+		if set(got) != set(want) {
+			o.fail("c18:scan:pending_of_binding", "pending requests of %s: the module's scan lists %v, the store holds %v", bk, shortAll(got), shortAll(want))
+		}
+		if len(want) > 0 {
+			o.hit("live_scan_pending_of_binding")
+		}
+	}
+	for _, cid := range sortedKeys(post.Ctxs) {
+		rc := post.Ctxs[cid]
+		var got, want []string
+		it := k.ActiveRequestsIteratorByReqCtx(ctx, unhx(cid), rc.BatchCounter)
+		for ; it.Valid(); it.Next() {
+			got = append(got, hx(it.Key()[1:]))
+		}
+		it.Close()
+		pre := cid + hx(be64(rc.BatchCounter))
+		for id := range post.ActiveID {
+			if strings.HasPrefix(id, pre) {
+				want = append(want, id)
+			}
+		}
+		if set(got) != set(want) {
+			o.fail("c18:scan:pending_of_batch", "pending requests of context %s batch %d: the module's scan lists %v, the store holds %v", short(cid), rc.BatchCounter, shortAll(got), shortAll(want))
+		}
+	}
+}
